@@ -54,6 +54,11 @@ def t_contains_isdigit():
         for b in (0, 47, 48, 57, 58, 255):
             assert em._isdigit(Fake(bytes([a, b]))) == bytes([a, b]).isdigit()
     assert em._isdigit(Fake(b"")) is False
+    for a in range(256):
+        for b in (None, 0, 47, 48, 65, 90, 91, 97, 122, 123, 200):
+            x = bytes([a]) if b is None else bytes([a, b])
+            assert bool(em._isalnum(Fake(x))) == x.isalnum(), x
+    assert em._isalnum(Fake(b"")) is False
 
 
 def t_bitops():
